@@ -91,6 +91,9 @@ NET_CLASSES = [
     ("never returned", {"C14", "C12", "C03"}),
     ("another request's reply", {"C03", "C12"}),
     ("names the cycle", {"C14"}),
+    ("before its", {"C10", "C14"}),
+    ("handled first", {"C02"}),
+    ("never was", {"C02", "C01"}),
 ]
 
 
